@@ -57,7 +57,8 @@ Inductive mp_error :=
 | EInvalidBoundary      (* InvalidBoundaryError *)
 | EMalformedHeaders     (* MalformedHeadersError *)
 | EUnexpectedBodyEnd    (* UnexpectedBodyEndError *)
-| EAssertion.           (* AssertionError (never raised; kept so that every assert is explicit) *)
+| EAssertion            (* AssertionError (never raised; kept so that every assert is explicit) *)
+| EOutOfFuel.           (* model artefact: a fuelled loop ran out (never happens) *)
 
 (* where a one-piece scan of the body ends *)
 Inductive final :=
@@ -127,7 +128,7 @@ Definition ref (B body : bytes) : list section * final :=
 
 (* the observable part: MultipartMarkup.markups and the class of .error *)
 Definition final_error (f : final) : option mp_error :=
-  match f with FError e => Some e | FOutOfFuel => Some EAssertion | _ => None end.
+  match f with FError e => Some e | FOutOfFuel => Some EOutOfFuel | _ => None end.
 
 Definition ref_obs (B body : bytes) : list section * option mp_error :=
   let r := ref B body in (fst r, final_error (snd r)).
